@@ -344,4 +344,37 @@ func c12(c *ev.Ctx) {
 		})
 	})
 	_ = model.Null
+	// (e) a call applies to what stands in front of its parenthesis, and parentheses around
+	// that leave no trace: the callee written bare and written in redundant parentheses is the
+	// same call, in every position a call can stand in
+	pairs := [][2]string{
+		{`return len("abc");`, `return (len)("abc");`}, {`return len("abc") + 1;`, `return ((len))("abc") + 1;`}, {`function f(a) { return a * 2; } return f(4);`, `function f(a) { return a * 2; } return (f)(4);`},
+		{`return -len("ab");`, `return -(len)("ab");`}, {`return upper("x") + "y";`, `return (upper)(("x")) + "y";`}, {`return !match("a", "b");`, `return !(match)("a", "b");`},
+		{`return [len("ab"), 1][0];`, `return [(len)("ab"), 1][0];`}, {`x = min(3, 2) ** 2; return x;`, `x = (min)(3, 2) ** 2; return x;`}, {`return 2 * max(1, 2) % 3;`, `return 2 * (max)((1), (2)) % 3;`},
+		{`if (len("a") == 1) { return 1; } return 0;`, `if ((len)("a") == 1) { return 1; } return 0;`}, {`function g() { return [5, 6]; } return g()[1];`, `function g() { return [5, 6]; } return (g)()[1];`},
+		{`return {"k": len("abcd")}.k;`, `return {"k": (len)("abcd")}.k;`}, {`return t(1);`, `return (t)(1);`},
+	}
+	for pi, pr := range pairs {
+		for _, noOpt := range []bool{false, true} {
+			cid := fmt.Sprintf("callee-parens/%d/%v", pi, noOpt)
+			if !c.Want(cid) {
+				continue
+			}
+			c.Case(pr[1], true)
+			var got [2]string
+			for k := 0; k < 2; k++ {
+				evr, err := eng.New(pr[k], eng.Options{NoOptimize: noOpt})
+				if err != nil {
+					got[k] = "Prepare error: " + err.Error()
+					continue
+				}
+				o := evr.Exec(nil)
+				got[k] = o.Desc() + " " + errText(o.Err) + " " + strings.Join(o.Trace, "|")
+			}
+			if got[0] != got[1] || strings.HasPrefix(got[0], "Prepare error") {
+				c.Violation(cid, "parentheses around a callee change the script", map[string]interface{}{
+					"summary": fmt.Sprintf("%s gives %s, %s gives %s (noopt=%v): redundant parentheses around the callee must not matter", pr[0], got[0], pr[1], got[1], noOpt), "script": pr[1]})
+			}
+		}
+	}
 }
